@@ -286,6 +286,9 @@ def instantiations(spec):
             choices.append(["0", "33"])
         elif p == "T" and assoc:
             choices.append([D + "Yes", D + "No", D + "YesToNo", D + "NoToYes"])
+        elif spec["trait"] not in PLAIN and p == "T":
+            # operator traits: also types that implement exactly one owned/reference form
+            choices.append([D + "Yes", D + "No"] + [f"{D}OnlyForm<{k}>" for k in range(4)])
         else:
             choices.append([D + "Yes", D + "No"])
     tparams = [p for p in used if p != "N"]
@@ -348,7 +351,7 @@ def check_case(spec, events):
         if x[i] != w[i]:
             bad.append(("bits", f"{inst}: twin {w[i]}", f"derive_ex {x[i]}"))
         # what "bound every parameter" (the std derive's policy) would give
-        naive = all(v in (D + "Yes", D + "YesToNo", "0", "33") for v in m.values())
+        naive = all(v in (D + "Yes", D + "YesToNo", "0", "33") or "OnlyForm" in v for v in m.values())
         if any((c == "1") != naive for c in w[i]):
             nontriv = True
     return bad, len(insts) * len(next(iter(x.values()), "")), nontriv
